@@ -156,6 +156,11 @@ func Worker(arg string) int {
 		evMu.Lock()
 		events = append(events, e)
 		evMu.Unlock()
+		// with several Cancel calls an interrupted command takes a moment to die (as one that traps the
+		// signal would): every call is then waiting while the run is still in flight
+		if ev == "CmdEnd" && sc.NC >= 2 && ctx.Err() != nil {
+			time.Sleep(250 * time.Millisecond)
+		}
 		if ev == "CmdStart" && k == "2" && sc.Hold[i-1] == "gate2" {
 			gateOnce[i].Do(func() { close(gateReached[i]) })
 			select {
@@ -241,6 +246,7 @@ func Worker(arg string) int {
 	var graph *scheduler.ExecutionGraph
 	var stages []*scheduler.Stage
 	schedDone := make(chan error, 1)
+	schedRet := make(chan struct{})
 	condScript := filepath.Join(sc.Dir, "cond.sh")
 	cerrStage := 0
 	if sc.Sched {
@@ -311,7 +317,7 @@ func Worker(arg string) int {
 		sched.VerifSetPause(2 * time.Millisecond)
 		// "done" stages must finish before the others reach their hold points: they have no gate,
 		// the held ones simply take longer; the condition error is injected after all holds are reached.
-		go func() { schedDone <- sched.Schedule(graph) }()
+		go func() { e := sched.Schedule(graph); close(schedRet); schedDone <- e }()
 		for i := 1; i <= sc.NR; i++ {
 			if sc.Hold[i-1] == "done" {
 				lim := time.Now().Add(15 * time.Second)
@@ -373,13 +379,30 @@ func Worker(arg string) int {
 					}
 				}
 				evMu.Unlock()
-				if n > 0 {
+				if n >= sc.NC {
 					close(cancelDone[0])
 					return
+				}
+				// with a caller's Cancel as well the loop may leave before it evaluates the condition:
+				// once Schedule has returned, a Cancel the loop issued has returned too
+				select {
+				case <-schedRet:
+					close(cancelDone[0])
+					return
+				default:
 				}
 				time.Sleep(time.Millisecond)
 			}
 		}()
+		// further Cancel calls come from the caller and overlap with the loop's own
+		for j := 1; j < sc.NC; j++ {
+			j := j
+			cancelDone[j] = make(chan struct{})
+			go func() {
+				sched.Cancel()
+				close(cancelDone[j])
+			}()
+		}
 	} else {
 		for j := 0; j < sc.NC; j++ {
 			j := j
